@@ -236,6 +236,9 @@ class _Synonyms(ast.NodeTransformer):
         if isinstance(n.func, ast.Name) and n.func.id == "getattr" and len(n.args) == 2 and not n.keywords and isinstance(n.args[1], ast.Constant) \
                 and isinstance(n.args[1].value, str) and n.args[1].value.isidentifier():
             return ast.copy_location(ast.Attribute(value=n.args[0], attr=n.args[1].value, ctx=ast.Load()), n)
+        if isinstance(n.func, ast.Attribute) and n.func.attr in ("__getattribute__", "__getattr__") and len(n.args) == 1 and not n.keywords and isinstance(n.args[0], ast.Constant) \
+                and isinstance(n.args[0].value, str) and n.args[0].value.isidentifier():
+            return ast.copy_location(ast.Attribute(value=n.func.value, attr=n.args[0].value, ctx=ast.Load()), n)
         if f == "vars" and len(n.args) == 1 and not n.keywords:
             return ast.copy_location(ast.Attribute(value=n.args[0], attr="__dict__", ctx=ast.Load()), n)
         if f in _BITWISE and len(n.args) == 2 and not n.keywords:
@@ -442,3 +445,31 @@ def normalize_table_driven(repo):
         f.node = _Getattr().visit(f.node)
         ast.fix_missing_locations(f.node)
     return report
+
+
+def renumber(fnode):
+    """give the statements of a rewritten function strictly increasing line numbers in source order (expressions take their
+    statement's number), so that `a.lineno < b.lineno` means `a comes first` again after splicing / unrolling"""
+    base = getattr(fnode, "lineno", 1) or 1
+    k = [base]
+
+    def visit(stmts):
+        for st in stmts:
+            k[0] += 1
+            ln = k[0]
+            for x in ast.walk(st):
+                if isinstance(x, ast.stmt) and x is not st:
+                    continue
+                if hasattr(x, "lineno"):
+                    x.lineno = ln
+                    x.end_lineno = ln
+            # nested statement lists get their own numbers (after the header)
+            for fld in ("body", "orelse", "finalbody"):
+                sub = getattr(st, fld, None)
+                if isinstance(sub, list) and sub and isinstance(sub[0], ast.stmt):
+                    visit(sub)
+            for h in getattr(st, "handlers", []) or []:
+                k[0] += 1
+                h.lineno = k[0]
+                visit(h.body)
+    visit(fnode.body)
